@@ -236,6 +236,10 @@ def expected(coin, signed, f, us, mp):
     exp = []
     for j in range(len(f[2])):
         e = "0"
+        if mp[j] is None and j < len(us) and us[j] is not None and spk_template(us[j][1])[0] == "other":
+            # no signed unlocking data sits here, but the script being satisfied is no standard template any more (an earlier
+            # step rewrote it, e.g. NOPs around a witness program make it an anyone-can-spend script): the interpreter decides
+            e = "?"
         if mp[j] is not None and j < len(us) and us[j] is not None:
             sol, wit, spent, pres, info = signed[mp[j]]
             w, code, _hts = info
